@@ -222,20 +222,19 @@ def analyse(facts, tier):
     # the buckets by what they receive (not by what they are called): a local vector that gets `push_back(events[i])` under
     # `type == T`; the bucket filled in the final else (no positive type test) is the one that holds the note-ons
     role = {}
-    for b, j, st in se.cfg.stmts():
-        for x in calls_in(st['s']):
-            if short(callee_name(x)) == 'push_back' and x.get('obj') is not None and strip(x['obj']).get('k') == 'DeclRefExpr' and x.get('a') and mentions(x['a'][0], member_named('events')):
-                bid_ = strip(x['obj'])['id']
-                tys = set()
-                def pos_types(fs):
-                    for f in fs:
-                        if f[0] == 'cmp' and f[1] == '==' and mentions(f[2], member_named('type')) and const_of(f[3]) is not None:
-                            tys.add(const_of(f[3]))
-                        if f[0] == 'or':
-                            for alt in f[1]:
-                                pos_types(alt)
-                pos_types(guard_facts(se, b, st))
-                role.setdefault(bid_, set()).update(tys if tys else {'other'})
+    for tgt_, src_, gf_, loc_ in append_sites(se):
+        if mentions(src_, member_named('events')):
+            bid_ = tgt_['id']
+            tys = set()
+            def pos_types(fs):
+                for f in fs:
+                    if f[0] == 'cmp' and f[1] == '==' and mentions(f[2], member_named('type')) and const_of(f[3]) is not None:
+                        tys.add(const_of(f[3]))
+                    if f[0] == 'or':
+                        for alt in f[1]:
+                            pos_types(alt)
+            pos_types(gf_)
+            role.setdefault(bid_, set()).update(tys if tys else {'other'})
     def role_of(vid):
         r = role.get(vid, set())
         if E.get('T_NOTEOFF') in r:
@@ -357,7 +356,7 @@ def r5_rows_on_their_ticks(facts):
                 continue
             base = strip(strip(ap[0]).get('b') or {})
             # a row that is already stored in the track: a reference bound to an element of m_trackData
-            if not (base.get('k') == 'DeclRefExpr' and base.get('id') in al and mentions(al[base['id']], member_named('m_trackData'))):
+            if not (base.get('k') == 'DeclRefExpr' and base.get('id') in al and mentions(subst(al[base['id']], al), member_named('m_trackData'))):
                 continue
             n += 1
             given_back = False
